@@ -10,6 +10,8 @@ BINS = {"C01": ["vsim"], "C02": ["vsim"], "C05": ["vsim"], "C16": ["vsim"], "C17
 EXTRA_BINS = {"X01": ["vtracksort"], "X02": ["vlooping"], "X03": ["vbih"], "X04": ["vactionseq"], "X05": ["vsurfdedupe"]}
 man = json.load(open(os.path.join(ROOT, "MANIFEST.json")))
 need = sorted({b for c in man["checks"] for b in BINS.get(c["property_id"], [])})
-need = sorted(set(need) | {b for v in EXTRA_BINS.values() for b in v
-                          if os.path.exists(os.path.join(ROOT, "harness", b + ".cc"))})
+import sys
+if "--extras" in sys.argv:  # bin/setup only insists on what the registered (MANIFEST) checks need
+    need = sorted(set(need) | {b for v in EXTRA_BINS.values() for b in v
+                              if os.path.exists(os.path.join(ROOT, "harness", b + ".cc"))})
 print(" ".join(need))
